@@ -107,7 +107,8 @@ class HeaderParse(Task):
     inline = INLINE_PCK
 
     def __init__(self, prop, nd, nf, nboxes, limit=None, maxmins=False, header_only=False, repeated=None, ref_extra=0, files=1,
-                 validate=False, cellh_nf=None):
+                 validate=False, cellh_nf=None, derived=None):
+        self.derived = derived
         self.cellh_nf = cellh_nf        # component count stated by the level headers when it is NOT the Header's field count
         self.prop = prop
         self.cfg = dict(nd=nd, nf=nf, nboxes=nboxes, limit=limit, maxmins=maxmins, header_only=header_only, repeated=repeated,
@@ -116,6 +117,8 @@ class HeaderParse(Task):
                      f"header_only={header_only},repeated={repeated},ref+{ref_extra},files={files}" + (",validate_mode" if validate else "") + "]")
         if cellh_nf is not None:
             self.name = self.name[:-1] + f",level headers state {cellh_nf} components]"
+        if derived:
+            self.name = self.name[:-1] + f",names derived {derived}]"
 
     def functions(self):
         return [self.qual] + list(INLINE_PCK)
@@ -123,7 +126,8 @@ class HeaderParse(Task):
     def setup(self, ex):
         c = self.cfg
         ctx = ex.ctx
-        pf = SkelPF(c["nd"], c["nf"], c["nboxes"], repeated=c["repeated"], ref_extra=c["ref_extra"], files_per_level=c["files"])
+        pf = SkelPF(c["nd"], c["nf"], c["nboxes"], repeated=c["repeated"], ref_extra=c["ref_extra"], files_per_level=c["files"],
+                    derived=self.derived)
         # well-formedness used by the grids: geo_hi = geo_lo + n*dx, n >= 1, dx > 0
         for lv in range(pf.L + 1):
             for d in range(pf.nd):
@@ -171,6 +175,7 @@ def header_tasks(prop, tier):
         cfgs = [dict(nd=3, nf=2, nboxes=[2, 1], maxmins=True, files=2), dict(nd=2, nf=2, nboxes=[1, 2], limit=0, ref_extra=1),
                 dict(nd=3, nf=3, nboxes=[1], repeated=(0, 2)), dict(nd=3, nf=1, nboxes=[1, 1], header_only=True),
                 dict(nd=3, nf=4, nboxes=[1], repeated=(0, 1, 3), maxmins=True),        # one name three times: name, name_2, name_3
+                dict(nd=3, nf=3, nboxes=[1], repeated=(0, 2), derived={1: (0, "_2")}),  # a, a_2, a: the renaming must not collide
                 dict(nd=2, nf=1, nboxes=[1, 1], limit=2), dict(nd=3, nf=2, nboxes=[1, 1, 1], limit=1, maxmins=True)]
         if tier == "thorough":
             cfgs += [dict(nd=3, nf=4, nboxes=[2, 3, 2, 1], maxmins=True, files=2, ref_extra=2, repeated=(1, 3)),
@@ -180,7 +185,8 @@ def header_tasks(prop, tier):
             out.append(HeaderParse("C02", **c))
     if prop in ("C03", "C20"):
         # the reader as taste builds it (validate_mode): every well-formed header is accepted and exposed unchanged
-        for c in [dict(nd=3, nf=2, nboxes=[2, 1], files=2, validate=True), dict(nd=2, nf=3, nboxes=[1, 2], limit=0, ref_extra=1, maxmins=True, validate=True)]:
+        for c in [dict(nd=3, nf=2, nboxes=[2, 1], files=2, validate=True), dict(nd=2, nf=3, nboxes=[1, 2], limit=0, ref_extra=1, maxmins=True, validate=True),
+                  dict(nd=3, nf=3, nboxes=[1], repeated=(0, 2), derived={1: (0, "_2")}, validate=True)]:
             out.append(HeaderParse(prop, **c))
     if prop in ("C04", "C20"):
         for c in [dict(nd=3, nf=2, nboxes=[1, 1], validate=True, cellh_nf=3), dict(nd=3, nf=2, nboxes=[2], validate=False, cellh_nf=1)]:
